@@ -59,6 +59,16 @@ def make_base(name):
     from coxeter import shapes as S
 
     cls, tag = name.split("/")
+    if tag == "centred":
+        # centroid exactly at the origin: a resize about the origin leaves the centre where it was, so a memo keyed
+        # on the centre alone survives the resize (wave-7 seed W7_C14a); built afresh, so no cache is warm
+        b = make_base(cls + "/" + ("xy" if "olygon" in cls else "chiral"))
+        v = np.array(b.vertices, float) - np.asarray((b.polygon if hasattr(b, "polygon") else b).centroid, float)
+        if cls == "ConvexPolyhedron":
+            return S.ConvexPolyhedron(v)
+        if cls == "ConvexPolygon":
+            return S.ConvexPolygon(v, normal=np.array(b.normal, float).copy())
+        return S.ConvexSpheropolygon(v, b.radius, normal=np.array(b.normal, float).copy())
     off = np.array([1.0, 2.0, 3.0])
     R = _rot((1, 2, 3, 4))
     if cls in ("ConvexPolyhedron", "Polyhedron", "ConvexSpheropolyhedron"):
@@ -179,6 +189,8 @@ BASES = [
 
 # C03 explores histories from these; C08 (single steps) additionally starts from every tiny base
 BASES_C03 = [b for b in BASES if b not in ("Polyhedron/tiny", "ConvexSpheropolyhedron/tiny", "ConvexPolygon/tiny", "Polyhedron/simplex", "Polygon/simplex")]
+# start states whose centroid is exactly the origin (C03 only)
+BASES_C03 += ["ConvexPolygon/centred", "ConvexSpheropolygon/centred", "ConvexPolyhedron/centred"]
 
 # ---------------------------------------------------------------------------
 # canonical state
